@@ -89,3 +89,13 @@ claimed["C15"] = (
  "Decides: decoder allocations sized by decoded counts are proportional to the input (dominated by this decoder's length guard), bounded by a rejecting test whose constant keeps prefix+elem*count within MaxInt32 with the product computed in int, and non-negative; Open bounds the retried header read by the file size and rejects files shorter than ExpectedFileSize; no decoder reads past its guards; every integer division/modulo by a non-constant is by a validated field, a positivity-tested value, or a unit multiplier; slot counters driven by file content are bounded by the destination's length; the page cache checks bounds first; the explicit panic is unreachable. Necessary structural conditions of C15.",
  "Not decided: hang-freedom, memory high-water marks, the 57 bounds checks the compiler cannot prove (cross-referenced once, not decided), behaviour of reads beyond ExpectedFileSize for files that are longer than described.",
  "DESIGN.md 5 (C15)")
+claimed["C04"] = (
+ "static non-interference of the result shape (E-ni) on SSA, canonicalised rejecting/nil conditions, derives-from for clamping, alignment and archive selection",
+ "Decides: fromTime, untilTime and step stored into a returned series are identical on both sides of the file-dependent never-written branch and the value count derives from them on both sides; no nil result depends on file content; the nil results are exactly `now < from` and `until < now - retention(selected archive)`; the failures are exactly from > until and an out-of-range archive id, before any file read; best archive from the unclamped from; clamping to [now-retention(selected), now]; bounds are the selected archive's interval() of the clamped values with the one-step extension exactly when they coincide; step is the selected archive's. Necessary structural conditions of C04.",
+ "Not decided: the alignment arithmetic and the exact count as numbers; Points() times are covered under C18.R3.",
+ "DESIGN.md 5 (C04)")
+claimed["C01"] = (
+ "static type-based sign analysis of % (E-range), typestate of raw ring slots (E-stale), greatest-fixpoint alignment dataflow (E-align) over SSA",
+ "Decides: every % with a possibly negative dividend and sign-sensitive use sits in floorMod, no timestamp is narrowed to int32 before %, the slot index is floorMod by the point count; every consumer of fetchRawPoints passes the raw slots through a stale-lap filter (loop comparing stored time for (in)equality with an expected time advanced by the step; mismatch blanked to NaN or dropped) called with the read's start interval and archive before any value is used; every point reaching putPointAt has a Time produced by intervalForWrite (directly, via an aligning slice builder, or via a parameter all callers fill so). Necessary structural conditions of C01.",
+ "Not decided: the ring arithmetic as numbers, wrap-around loop bounds of fetchRawPoints, page-boundary behaviour of the cache, history-quantified behaviour.",
+ "DESIGN.md 5 (C01)")
